@@ -11,7 +11,7 @@ func panics(f func()) (p bool) {
 }
 
 //verif:harness C14 quick la=0..3 lb=0..3
-//verif:harness C14 thorough la=4..5 lb=0..5
+//verif:harness C14 thorough la=4..4 lb=0..4
 func H_C14_orderLaws(la int, lb int) {
 	a, b := vStr("a", la), vStr("b", lb)
 	for i := 0; i < la; i++ {
